@@ -57,9 +57,11 @@ Op(e) ==
        /\ ~s1.fin[t+1]
        /\ e.c = s1.ix[t+1] /\ e.pc = s1.pc[t+1] /\ e.k = NextOp(s1, t).k
        /\ CanComplete(s1, t)
+       \* the runtime's own schedule record has one entry per decision and per random draw so far
+       /\ ("sl" \in DOMAIN e => e.sl = s1.slen)
        /\ LET res == Complete(s1, t) IN e.r = res.r /\ S' = res.s
 
-Rnd(e) == S' = [S EXCEPT !.slen = @ + 1]
+Rnd(e) == S' = [S EXCEPT !.slen = @ + 1, !.rv = e.m]
 
 End(e) ==
   \E s1 \in Variants(S) :
